@@ -54,7 +54,7 @@ struct Tracker {
 
 impl Tracker {
   fn feed(&mut self) {
-    for e in verif::events().iter() {
+    for e in support::masked_events().iter() {
       if e.kind == EV_WRITE {
         if e.a == 0xff01 {
           self.sb = e.b as u8;
